@@ -21,6 +21,11 @@ def determinism(a):
     loader.exec_module(chk)
     import props
     chk.build()
+    # the reference model against an independent evaluation with boxed std::iter adaptors
+    p = chk.psim("selftest-reference", "--count", "1500")
+    print(p.stdout.strip())
+    if p.returncode != 0:
+        return 2
     n = a.seeds or 2000
     per = max(16, n // len(PROPS))
     total = 0
